@@ -228,7 +228,14 @@ func runC15(c *Ctx) {
 	}
 	// a day in the past is expired, a day in the future is not
 	now := time.Now()
-	for _, off := range []int64{-86400, 86400, -90000, 100000} {
+	offs := []int64{-86400, 86400, -90000, 100000, 1, -2, 3600, -3600,
+		1<<31 - 86400, 1 << 31, 1<<31 + 86400, 1<<31 + 86400*365, // more than 2^31 s ahead of the clock
+		int64(0xFFFFFFFF) - now.Unix(), int64(0xFFFFFFFE) - now.Unix(), // the end of the 32-bit range
+		11 - now.Unix(), 86400 - now.Unix()} // the beginning of the range (published = ts-10 must not wrap)
+	for _, off := range offs {
+		if now.Unix()+off < 11 || now.Unix()+off > 0xFFFFFFFF {
+			continue
+		}
 		ts := uint32(now.Unix() + off)
 		want := off < 0
 		ls, _, err := lease_set2.ReadLeaseSet2(c15LS2(ts-10, 10))
